@@ -75,6 +75,10 @@ def run_unit(args):
             res["targets"].append(d)
         c = U.SymUnitCtx(uname, prop, seed)
         c.known_ids = known_ids
+        if u.bounded:
+            c.unroll = True       # small-scope symbolic: concrete small lengths, bounded depth
+            c.deadline = time.time() + (90 if tier == "quick" else 600)
+            res["bounded"] = u.bounded
         proxies.set_cx(c)
         c.explore(u.body)
         res["paths"] = c.paths_run
@@ -93,7 +97,7 @@ def run_unit(args):
                 bn = o.name
                 if bn not in seen:
                     seen[bn] = replay_obligation(u, prop, o, known_ids)
-                    if seen[bn]["verdict"] != "confirmed":
+                    if seen[bn]["verdict"] != "confirmed" and not u.bounded:
                         # counterexample completion: bounded unrolling, no loop cut
                         w = complete_by_unrolling(u, prop, o, known_ids, seed)
                         if w is not None:
@@ -258,8 +262,10 @@ def check_property(prop, tier, seed, jobs=None):
     lock = json.load(open(lock_path)) if os.path.exists(lock_path) else {}
     locked = set(lock.get(prop, []))
 
-    n_obl = sum(r.get("n_obligations", 0) for r in results)
-    n_dis = sum(r.get("n_discharged", 0) for r in results)
+    n_obl = sum(r.get("n_obligations", 0) for r in results if not r.get("bounded"))
+    n_dis = sum(r.get("n_discharged", 0) for r in results if not r.get("bounded"))
+    nb_obl = sum(r.get("n_obligations", 0) for r in results if r.get("bounded"))
+    nb_dis = sum(r.get("n_discharged", 0) for r in results if r.get("bounded"))
     refuted, undecided, crashes = [], [], []
     discharged_names = set()
     for r in results:
@@ -381,7 +387,10 @@ def check_property(prop, tier, seed, jobs=None):
                      "assumptions held and >=1 clause evaluated"),
             "samples": samples,
             "functions_under_contract": funcs,
-            "units": [{"unit": r["unit"], "paths": r["paths"], "exhaustive_paths": r["exhausted"],
+            "bounded_symbolic": {"obligations": nb_obl, "discharged": nb_dis,
+                                 "note": "units explored symbolically but with a stated bound (never counted in obligations/discharged)",
+                                 "units": {r["unit"]: r["bounded"] for r in results if r.get("bounded")}},
+            "units": [{"unit": r["unit"], "paths": r["paths"], "bounded": r.get("bounded"), "exhaustive_paths": r["exhausted"],
                        "obligations": r.get("n_obligations", 0), "discharged": r.get("n_discharged", 0),
                        "solver_secs": r["secs"], "wall_s": r["wall"],
                        "covers_sat": sum(1 for c in r["covers"] if c[1] == "sat"), "covers": len(r["covers"]),
@@ -407,8 +416,8 @@ def check_property(prop, tier, seed, jobs=None):
     json.dump(ev, open(os.path.join(ROOT, "evidence", prop + ".json"), "w"), indent=1, default=str)
 
     # ---- report
-    print("%s tier=%s units=%d paths=%d obligations=%d discharged=%d undecided=%d refuted=%d standin_evals=%d wall=%.1fs level=%s" % (
-        prop, tier, len(results), sum(r["paths"] for r in results), n_obl, n_dis, len(undecided),
+    print("%s tier=%s units=%d paths=%d obligations=%d discharged=%d (+bounded-symbolic %d/%d) undecided=%d refuted=%d standin_evals=%d wall=%.1fs level=%s" % (
+        prop, tier, len(results), sum(r["paths"] for r in results), n_obl, n_dis, nb_dis, nb_obl, len(undecided),
         len(seen_names), standin.get("evaluations", 0), wall, level))
     for x in undecided[:12]:
         print("  undecided: %s -- %s" % (x["name"], x["why"][:200]))
@@ -437,7 +446,11 @@ def check_property(prop, tier, seed, jobs=None):
     cf = [(r["unit"], f) for r in results for f in r["cross"]["failed"]]
     if cf:
         rc = 0
-        for uname, f in cf[:5]:
+        done = set()
+        for uname, f in cf:
+            if (uname, f["clauses"][0]) in done or len(done) >= 5:
+                continue
+            done.add((uname, f["clauses"][0]))
             fid = None
             path = os.path.join("replays", prop, "cross_%s.json" % re.sub(r"\W+", "_", uname))
             json.dump({"property": prop, "unit": uname, "cross_check_failure": f},
